@@ -33,7 +33,8 @@ def describe(tier):
                                  b['attrs'], len(D.ATTR_SETS), b['bodies'], D.BODY_VARIANTS[1:]),
         nontrivial='the position lies strictly inside at least one element.',
         bounds=b,
-        assumptions=['every checked call on a document with attributes is preceded by the same call on a same-length document with other '
+        assumptions=['forests with the template element and no script / style are also written with a bare <script> and matched '
+                     'with an empty `special` table (an empty table is a table)', 'every checked call on a document with attributes is preceded by the same call on a same-length document with other '
                      'attribute text at the same offsets', 'the checked calls at every eighth position are preceded by %d x 3 calls on ill-formed documents in the other '
                      'mode: history must not matter' % len(POISON), 'balanced_inward exactly at element boundaries and ill-formed documents are left unspecified (C16 covers totality)'],
         explanation='Every (document, position) is given to the real matcher functions and compared with the generator ground truth; '
@@ -57,6 +58,8 @@ def docs(tier):
                     if v == 3 and not D.uses_kind(f, 'script'):
                         continue              # the fourth variant only changes script elements
                     yield f, v
+            if D.uses_kind(f, 'tpl') and not any(D.uses_kind(f, k_) for k_ in ('script', 'style', 'script/')):
+                yield f, 'special-off'         # a bare <script> with markup children, matched with an empty `special` table
 
 
 def docs0(tier):
@@ -107,10 +110,10 @@ def variant_of(text, elements):
     return v
 
 
-def check_pos(text, elements, xml, p):
+def check_pos(text, elements, xml, p, special_off=False):
     """-> list of (class, detail)"""
     bad = []
-    opt = {'xml': xml}
+    opt = {'xml': xml, 'special': {}} if special_off else {'xml': xml}
     if p % 8 == 0:
         poison(xml)
     variant = variant_of(text, elements)
@@ -168,10 +171,13 @@ def run_shard(shard, ctx, tier):
     for idx, (forest, bv) in enumerate(docs(tier)):
         if idx % of != k:
             continue
-        for xml in (False, True):
-            text, elements = D.emit(forest, xml, D.BODY_VARIANTS[bv])
+        for xml in ((False,) if bv == 'special-off' else (False, True)):
+            if bv == 'special-off':
+                text, elements = D.emit(forest, xml, None, True)
+            else:
+                text, elements = D.emit(forest, xml, D.BODY_VARIANTS[bv])
             ctx.states += 1
-            if not xml:
+            if not xml and bv != 'special-off':
                 # calls that rely on the default options, made after calls with explicit options, behave like explicit defaults
                 for p in range(0, len(text) + 1, 3):
                     H.match(text, p, {'xml': True, 'empty': ['div'], 'special': {}})
@@ -191,7 +197,7 @@ def run_shard(shard, ctx, tier):
                 if enc:
                     ctx.nontrivial += 1
                 ctx.outcome((len(enc), elements[enc[0]]['kind'] if enc else None, xml))
-                for cls, d in check_pos(text, elements, xml, p):
+                for cls, d in check_pos(text, elements, xml, p, bv == 'special-off'):
                     ctx.violation(cls, dict(forest=forest, xml=xml, pos=p, text=text, body=bv), d)
     if text:
         ctx.sample(dict(document=text, positions=len(text) + 1))
@@ -219,6 +225,9 @@ def check_case(case):
         if (a and tag_tuple(a)) != (b and tag_tuple(b)):
             return [('match:default-options-differ-from-explicit-defaults', dict(default_call=a and tag_tuple(a), explicit_call=b and tag_tuple(b)))]
         return []
+    if case.get('body') == 'special-off':
+        text, elements = D.emit(forest, case['xml'], None, True)
+        return check_pos(text, elements, case['xml'], case['pos'], True)
     text, elements = D.emit(forest, case['xml'], D.BODY_VARIANTS[case.get('body', 0)])
     return check_pos(text, elements, case['xml'], case['pos'])
 
